@@ -96,6 +96,13 @@ def dead_code_programs():
     out.append(("dead:never_called", HDR + "def report(v):\n    db.Setting = v\n\ndef unused(a):\n    report(a)\n    report(a + 1)\n\ndb.On = d0.Setting\n"))
     out.append(("dead:if_false", HDR + "def report(v):\n    db.Setting = v\n\nif False:\n    report(1)\n    report(2)\ndb.On = d0.Setting\n"))
     out.append(("dead:if_zero_else", HDR + "def report(v):\n    db.Setting = v\n\nif 1:\n    db.Mode = 1\nelse:\n    report(1)\n    report(2)\ndb.On = d0.Setting\n"))
+    # a library function referenced again from dead top-level code of the main file
+    for i, dead in enumerate(["if False:\n    lib.report(99)\n", "if 0:\n    db.Mode = 1\n    lib.report(98)\n", "while False:\n    lib.report(97)\n"]):
+        # (a reference that is dead only through a named constant - DEBUG = False; if DEBUG: lib.report(..) -
+        # is counted as a call site by the pinned tree: the function is then legitimately not inlined and
+        # the recorded fall-through applies; not part of this family)
+        out.append((f"dead:library_call:{i}", {"": HDR + "from library import lib\n\nlib.report(1)\n" + dead + "db.Setting = 2\n",
+                                                "lib": HDR + "\ndef report(v):\n    db.Setting = v\n"}))
     return out
 
 
@@ -170,6 +177,13 @@ def run(tier: str) -> int:
             if never_called:
                 path = e1.save_replay(PROP, dict(property=PROP, kind="monitor", name=spec["name"], sources=spec["sources"], opts=spec.get("opts", {}), event=e, code=r.get("code")))
                 rep.violation(f"{spec['name']}: a function body that no executed call reaches ({st_.get('function_entries', {}).get(str(target))}) is emitted after the main code and entered by fall-through", path)
+                continue
+            if spec["name"].startswith("dead:") and not spec.get("opts"):
+                # by construction every function of these programs has at most one live call site and
+                # inlining is on: the pinned tree emits no function body at all, so the recorded
+                # fall-through (a legitimately non-inlined function after main) does not apply
+                path = e1.save_replay(PROP, dict(property=PROP, kind="monitor", name=spec["name"], sources=spec["sources"], opts=spec.get("opts", {}), event=e, code=r.get("code")))
+                rep.violation(f"{spec['name']}: a function whose only other reference is in dead code was emitted after the main code and is entered by fall-through ({st_.get('function_entries', {}).get(str(target))})", path)
                 continue
             if kf is not None and e["kind"] == "fallthrough" and int(e["detail"][0]) == r.get("main_end"):
                 rep.known(f"{kf['id']} {kf['what']}")
